@@ -281,18 +281,23 @@ def boundValues : Bound → List Value
     [.float (q - tiny), .float q, .float (q + tiny)]
   | _ => []
 
-/-- values that an extracted constraint makes interesting: its bounds and its options -/
-def constraintValues (env : Env) : Constraint → List Value
-  | .interval _ lo hi _ => boundValues lo ++ boundValues hi
-  | .strOptions sets lits => (sets.flatMap env.members ++ lits).map Value.str
-  | _ => []
+/-- every interval bound that occurs in a translated table (each once) -/
+def tableBounds (table : List (String × List (String × Option (List Constraint)))) : List Bound :=
+  (table.flatMap fun (_, rows) => rows.flatMap fun (_, row) => (row.getD []).flatMap fun c =>
+    match c with
+    | .interval _ lo hi _ => [lo, hi]
+    | _ => []).eraseDups
 
-def tableValues (env : Env) (table : List (String × List (String × Option (List Constraint)))) : List Value :=
-  table.flatMap fun (_, rows) => rows.flatMap fun (_, row) => (row.getD []).flatMap (constraintValues env)
+/-- every option string that occurs in a translated table (each once) -/
+def tableStrings (env : Env) (table : List (String × List (String × Option (List Constraint)))) : List String :=
+  (table.flatMap fun (_, rows) => rows.flatMap fun (_, row) => (row.getD []).flatMap fun c =>
+    match c with
+    | .strOptions sets lits => sets.flatMap env.members ++ lits
+    | _ => []).eraseDups
 
-/-- all representative values: the hand-written ones and those the extracted tables make interesting -/
+/-- all representative values: the hand-written ones, the neighbours of every extracted bound, every extracted option -/
 def repValues (env : Env) (table : List (String × List (String × Option (List Constraint)))) : List Value :=
-  (baseUniverse ++ tableValues env table).eraseDups
+  (baseUniverse ++ (tableBounds table).flatMap boundValues ++ (tableStrings env table).map Value.str).eraseDups
 
 /-! #### Explicit exception lists of the table theorems (each entry is re-confirmed on the real code by every run) -/
 
@@ -301,21 +306,21 @@ def wassersteinEstimators : List String := ["LinearWasserstein", "MLPWasserstein
 /-- Values that pass the table although they are outside the documented domain, and are rejected later inside
     `fit` / the call by a ValueError/TypeError-family error. -/
 def lateRejected : List (String × String × Value) :=
-  -- `Douglas(n_cuts=None)` passes `[Interval(Integral, 1, None), None]`; `normal(size=(None,))` raises TypeError
-  [("Douglas", "n_cuts", Value.none)]
   -- the *Wasserstein estimators take `PAIRWISE_DISTANCE_FUNCTIONS + precomputed | callable`; the WassersteinGEMINI
   -- constructor called by `get_gemini()` inside `fit` only takes `PAIRED_DISTANCES + precomputed`
-  ++ (wassersteinEstimators.flatMap fun o =>
-        [Value.str "haversine", .str "nan_euclidean", .func, .gemini "MMDGEMINI", .gemini "WassersteinGEMINI", .gemini "MI"].map
-          fun v => (o, "metric", v))
-  -- `Interval(Integral, 0, None)` has no upper end; `check_random_state(2**32)` raises ValueError
-  ++ (gradientModels.map fun o => (o, "random_state", Value.int 4294967296))
+  (wassersteinEstimators.flatMap fun o =>
+    [Value.str "haversine", .str "nan_euclidean", .func, .gemini "MMDGEMINI", .gemini "WassersteinGEMINI", .gemini "MI"].map
+      fun v => (o, "metric", v))
+  -- scikit-learn's "array-like" test (`_is_arraylike_not_scalar`) lets a dict through (it has `__len__`);
+  -- `check_array` / the body then rejects it
+  ++ [("draw_gmm", "loc", Value.dict), ("draw_gmm", "scale", .dict), ("draw_gmm", "pvals", .dict),
+      ("multivariate_student_t", "loc", .dict), ("multivariate_student_t", "scale", .dict),
+      ("print_kauri_tree", "feature_names", .dict)]
 
-/-- Documented values that the table rejects (DESIGN §8 row 12), to be removed when /repo is fixed:
-    `random_state=RandomState(…)` is documented ("int, RandomState instance") for every DiscriminativeModel subclass
-    and rejected by `[Interval(Integral, 0, None, closed="left"), None]`. -/
-def knownDeviations : List (String × String × Value) :=
-  gradientModels.map fun o => (o, "random_state", Value.randomState)
+/-- Documented values that the extracted table rejects.  Empty since /repo commit 42cc36b
+    (`"random_state": ["random_state"]` on DiscriminativeModel; before it, `random_state=RandomState(…)` — documented
+    "int, RandomState instance" — was rejected by every DiscriminativeModel subclass, DESIGN §8 row 12). -/
+def knownDeviations : List (String × String × Value) := []
 
 /-- Parameters the tables do not validate at all (no entry, or an entry under a key that names no parameter):
     every out-of-domain value reaches the body of `fit` / the function. -/
@@ -327,5 +332,335 @@ end GemVerif.Spec.Constraints
 
 namespace GemVerif.Lemmas.Constraints
 open GemVerif.Model.Constraints
+
+/-! ### lists -/
+
+theorem foldl_append_flatten (gs : List (List Int)) (acc : List Int) :
+    gs.foldl (fun acc g => acc ++ g) acc = acc ++ gs.flatten := by
+  induction gs generalizing acc with
+  | nil => simp
+  | cons g gs ih => simp [List.foldl_cons, ih, List.append_assoc]
+
+/-- pigeonhole, first half: a duplicate-free list inside `m` is not longer than `m` -/
+theorem length_le_of_nodup_subset : ∀ (l m : List Int), l.Nodup → (∀ x ∈ l, x ∈ m) → l.length ≤ m.length := by
+  intro l
+  induction l with
+  | nil => intro m _ _; simp
+  | cons a l ih =>
+    intro m hn hs
+    have ⟨hal, hl⟩ := List.nodup_cons.mp hn
+    have ham : a ∈ m := hs a (List.mem_cons_self)
+    have h1 : ∀ x ∈ l, x ∈ m.erase a := by
+      intro x hx
+      have hxa : x ≠ a := fun h => hal (h ▸ hx)
+      exact (List.mem_erase_of_ne hxa).mpr (hs x (List.mem_cons_of_mem _ hx))
+    have h2 := ih (m.erase a) hl h1
+    have h3 := List.length_erase_of_mem ham
+    have h4 : 0 < m.length := List.length_pos_of_mem ham
+    simp only [List.length_cons]
+    omega
+
+/-- pigeonhole, second half: if moreover `m` is not longer than `l`, every element of `m` occurs in `l` -/
+theorem subset_of_nodup_subset_length : ∀ (l m : List Int), l.Nodup → (∀ x ∈ l, x ∈ m) → m.length ≤ l.length →
+    ∀ y ∈ m, y ∈ l := by
+  intro l
+  induction l with
+  | nil =>
+    intro m _ _ hlen y hy
+    have : 0 < m.length := List.length_pos_of_mem hy
+    simp only [List.length_nil] at hlen; omega
+  | cons a l ih =>
+    intro m hn hs hlen y hy
+    have ⟨hal, hl⟩ := List.nodup_cons.mp hn
+    have ham : a ∈ m := hs a (List.mem_cons_self)
+    have h1 : ∀ x ∈ l, x ∈ m.erase a := by
+      intro x hx
+      have hxa : x ≠ a := fun h => hal (h ▸ hx)
+      exact (List.mem_erase_of_ne hxa).mpr (hs x (List.mem_cons_of_mem _ hx))
+    have h3 := List.length_erase_of_mem ham
+    have h4 : 0 < m.length := List.length_pos_of_mem ham
+    have h5 : (m.erase a).length ≤ l.length := by simp only [List.length_cons] at hlen; omega
+    by_cases hya : y = a
+    · exact hya ▸ List.mem_cons_self
+    · exact List.mem_cons_of_mem _ (ih (m.erase a) hl h1 h5 y ((List.mem_erase_of_ne hya).mpr hy))
+
+/-! ### `pyDistinct` -/
+
+theorem mem_pyDistinct (xs : List Int) (x : Int) : x ∈ pyDistinct xs ↔ x ∈ xs := by
+  induction xs with
+  | nil => simp [pyDistinct]
+  | cons a xs ih =>
+    unfold pyDistinct
+    by_cases h : xs.contains a = true
+    · simp only [h, if_true, ih, List.mem_cons]
+      constructor
+      · exact Or.inr
+      · rintro (rfl | h')
+        · exact List.contains_iff_mem.mp h
+        · exact h'
+    · have h' : xs.contains a = false := by simpa using h
+      simp only [h', List.mem_cons]; simp [ih]
+
+theorem nodup_pyDistinct (xs : List Int) : (pyDistinct xs).Nodup := by
+  induction xs with
+  | nil => simp [pyDistinct]
+  | cons a xs ih =>
+    unfold pyDistinct
+    by_cases h : xs.contains a = true
+    · simp only [h, if_true]; exact ih
+    · simp only [h]
+      refine List.nodup_cons.mpr ⟨?_, ih⟩
+      rw [mem_pyDistinct]
+      intro hm; exact h (List.contains_iff_mem.mpr hm)
+
+theorem length_pyDistinct_le (xs : List Int) : (pyDistinct xs).length ≤ xs.length := by
+  induction xs with
+  | nil => simp [pyDistinct]
+  | cons a xs ih =>
+    unfold pyDistinct
+    by_cases h : xs.contains a = true
+    · simp only [h, if_true, List.length_cons]; omega
+    · simp only [h, List.length_cons]; simp; omega
+
+theorem length_pyDistinct_eq_iff (xs : List Int) : (pyDistinct xs).length = xs.length ↔ xs.Nodup := by
+  induction xs with
+  | nil => simp [pyDistinct]
+  | cons a xs ih =>
+    unfold pyDistinct
+    have hle := length_pyDistinct_le xs
+    by_cases h : xs.contains a = true
+    · simp only [h, if_true, List.length_cons]
+      have hm : a ∈ xs := List.contains_iff_mem.mp h
+      constructor
+      · intro he; omega
+      · intro hn; exact absurd hm (List.nodup_cons.mp hn).1
+    · have hm : ¬ a ∈ xs := fun hm => h (List.contains_iff_mem.mpr hm)
+      simp only [h, List.length_cons, List.nodup_cons]
+      constructor
+      · intro he; exact ⟨hm, ih.mp (by simpa using he)⟩
+      · intro hn; simp [ih.mpr hn.2]
+
+/-! ### python primitives -/
+
+theorem mem_pyRange (d : Nat) (i : Int) : i ∈ pyRange d ↔ 0 ≤ i ∧ i < d := by
+  unfold pyRange
+  simp only [List.mem_map, List.mem_range]
+  constructor
+  · rintro ⟨n, hn, rfl⟩
+    exact ⟨Int.natCast_nonneg n, by show (n : Int) < d; omega⟩
+  · rintro ⟨h0, h1⟩
+    refine ⟨i.toNat, ?_, ?_⟩
+    · omega
+    · simp [Int.toNat_of_nonneg h0]
+
+theorem nodup_pyRange (d : Nat) : (pyRange d).Nodup := by
+  unfold pyRange
+  exact List.Pairwise.map _ (fun a b h => by intro h'; exact h (Int.ofNat.inj h')) List.nodup_range
+
+theorem length_pyRange (d : Nat) : (pyRange d).length = d := by simp [pyRange]
+
+theorem foldl_min_lt (t : List Int) (x : Int) : t.foldl min x < 0 ↔ x < 0 ∨ ∃ y ∈ t, y < 0 := by
+  induction t generalizing x with
+  | nil => simp
+  | cons a t ih =>
+    simp only [List.foldl_cons, ih, List.mem_cons]
+    constructor
+    · rintro (h | ⟨y, hy, h⟩)
+      · rcases (show x < 0 ∨ a < 0 by omega) with h | h
+        · exact Or.inl h
+        · exact Or.inr ⟨a, Or.inl rfl, h⟩
+      · exact Or.inr ⟨y, Or.inr hy, h⟩
+    · rintro (h | ⟨y, rfl | hy, h⟩)
+      · exact Or.inl (by omega)
+      · exact Or.inl (by omega)
+      · exact Or.inr ⟨y, hy, h⟩
+
+theorem foldl_max_ge (t : List Int) (x d : Int) : t.foldl max x ≥ d ↔ x ≥ d ∨ ∃ y ∈ t, y ≥ d := by
+  induction t generalizing x with
+  | nil => simp
+  | cons a t ih =>
+    simp only [List.foldl_cons, ih, List.mem_cons]
+    constructor
+    · rintro (h | ⟨y, hy, h⟩)
+      · rcases (show x ≥ d ∨ a ≥ d by omega) with h | h
+        · exact Or.inl h
+        · exact Or.inr ⟨a, Or.inl rfl, h⟩
+      · exact Or.inr ⟨y, Or.inr hy, h⟩
+    · rintro (h | ⟨y, rfl | hy, h⟩)
+      · exact Or.inl (by omega)
+      · exact Or.inl (by omega)
+      · exact Or.inr ⟨y, hy, h⟩
+
+/-- every index lies in `0 … d-1` -/
+def InRange (d : Nat) (xs : List Int) : Prop := ∀ i ∈ xs, 0 ≤ i ∧ i < d
+
+instance (d : Nat) (xs : List Int) : Decidable (InRange d xs) := by unfold InRange; infer_instance
+
+/-- the first guard of `check_groups`: `len(all) > 0 and (min(all) < 0 or max(all) >= d)` never raises and is true
+    exactly when some index is out of range -/
+theorem rangeGuard_eq (d : Nat) (xs : List Int) :
+    (pyAnd (pyCmp .gt (pure (pyLen xs)) (pure (0 : Int))) fun _ =>
+      (pyOr (pyCmp .lt (pyMin xs) (pure (0 : Int))) fun _ => (pyCmp .ge (pyMax xs) (pure (d : Int)))))
+      = .ok (decide (¬ InRange d xs)) := by
+  cases xs with
+  | nil => simp [pyAnd, pyCmp, pyLen, Cmp.eval, InRange, bind, Except.bind, pure, Except.pure]
+  | cons x t =>
+    have hlen : decide ((pyLen (x :: t)) > 0) = true := by simp [pyLen]
+    simp only [pyAnd, pyOr, pyCmp, pyMin, pyMax, Cmp.eval, bind, Except.bind, pure, Except.pure, hlen, if_true]
+    by_cases hmin : t.foldl min x < 0
+    · have : ¬ InRange d (x :: t) := by
+        intro hr
+        rcases (foldl_min_lt t x).mp hmin with h | ⟨y, hy, h⟩
+        · have := (hr x List.mem_cons_self).1; omega
+        · have := (hr y (List.mem_cons_of_mem _ hy)).1; omega
+      simp [hmin, this]
+    · by_cases hmax : t.foldl max x ≥ (d : Int)
+      · have : ¬ InRange d (x :: t) := by
+          intro hr
+          rcases (foldl_max_ge t x d).mp hmax with h | ⟨y, hy, h⟩
+          · have := (hr x List.mem_cons_self).2; omega
+          · have := (hr y (List.mem_cons_of_mem _ hy)).2; omega
+        simp [hmin, hmax, this]
+      · have : InRange d (x :: t) := by
+          intro i hi
+          have h1 : ¬ (x < 0 ∨ ∃ y ∈ t, y < 0) := fun h => hmin ((foldl_min_lt t x).mpr h)
+          have h2 : ¬ (x ≥ (d : Int) ∨ ∃ y ∈ t, y ≥ (d : Int)) := fun h => hmax ((foldl_max_ge t x d).mpr h)
+          rcases List.mem_cons.mp hi with rfl | hi
+          · constructor
+            · have : ¬ i < 0 := fun h => h1 (Or.inl h)
+              omega
+            · have : ¬ i ≥ (d : Int) := fun h => h2 (Or.inl h)
+              omega
+          · constructor
+            · have : ¬ i < 0 := fun h => h1 (Or.inr ⟨i, hi, h⟩)
+              omega
+            · have : ¬ i ≥ (d : Int) := fun h => h2 (Or.inr ⟨i, hi, h⟩)
+              omega
+        have hmax' : ¬ (d : Int) ≤ t.foldl max x := hmax
+        simp [hmin, hmax', this]
+
+/-! ### `check_groups` -/
+
+/-- `all_indices`: the concatenation of the user's groups -/
+def flat (groups : Groups) : List Int := groups.foldl (fun acc g => acc ++ g) []
+
+theorem flat_eq_flatten (groups : Groups) : flat groups = groups.flatten := by
+  simp [flat, foldl_append_flatten]
+
+/-- the user's groups followed by one singleton per feature they do not mention, in increasing order -/
+def completion (groups : Groups) (d : Nat) : Groups :=
+  groups ++ (((pyRange d).filter fun i => !(pyIn i (flat groups))).map fun i => [i])
+
+/-- the documented precondition: every index is a feature index and no index occurs twice -/
+def Legal (groups : Groups) (d : Nat) : Prop := InRange d (flat groups) ∧ (flat groups).Nodup
+
+instance (groups : Groups) (d : Nat) : Decidable (Legal groups d) := by unfold Legal; infer_instance
+
+theorem pySetEq_range_iff (xs : List Int) (d : Nat) :
+    pySetEq xs (pyRange d) = true ↔ InRange d xs ∧ ∀ y ∈ pyRange d, y ∈ xs := by
+  simp only [pySetEq, Bool.and_eq_true, List.all_eq_true, List.contains_iff_mem, InRange, mem_pyRange]
+
+theorem pyIf_ok {α : Type} (b : Bool) (t e : Unit → Except String α) :
+    pyIf (.ok b) t e = if b then t () else e () := by
+  simp [pyIf, bind, Except.bind]
+
+theorem pyIf_pure {α : Type} (b : Bool) (t e : Unit → Except String α) :
+    pyIf (pure b) t e = if b then t () else e () := pyIf_ok b t e
+
+theorem pyCmp_pure (op : Cmp) (a b : Int) : pyCmp op (pure a) (pure b) = .ok (op.eval a b) := by
+  simp [pyCmp, bind, Except.bind, pure, Except.pure]
+
+/-- full cover: a duplicate-free list of `d` feature indices mentions every feature -/
+theorem covers_of_legal_length (xs : List Int) (d : Nat) (hr : InRange d xs) (hn : xs.Nodup) (hl : xs.length = d) :
+    ∀ y ∈ pyRange d, y ∈ xs :=
+  subset_of_nodup_subset_length xs (pyRange d) hn (fun x hx => (mem_pyRange d x).mpr (hr x hx))
+    (by rw [length_pyRange]; omega)
+
+/-- conversely `d` indices that mention every feature are duplicate-free -/
+theorem nodup_of_covers_length (xs : List Int) (d : Nat) (hc : ∀ y ∈ pyRange d, y ∈ xs) (hl : xs.length = d) :
+    xs.Nodup := by
+  have h1 : (pyRange d).length ≤ (pyDistinct xs).length :=
+    length_le_of_nodup_subset _ _ (nodup_pyRange d) (fun y hy => (mem_pyDistinct xs y).mpr (hc y hy))
+  have h2 := length_pyDistinct_le xs
+  rw [length_pyRange] at h1
+  exact (length_pyDistinct_eq_iff xs).mp (by omega)
+
+theorem checkGroups_unfold (groups : Groups) (d : Nat) :
+    checkGroups (some groups) d =
+      if decide (¬ InRange d (flat groups)) then .error "ValueError:Indices passed to"
+      else if decide (pyLen (flat groups) = (d : Int)) then
+        (if !(pySetEq (flat groups) (pyRange d)) then .error "ValueError:Groups must form" else .ok (some groups))
+      else if decide (pySetLen (flat groups) ≠ pyLen (flat groups)) then .error "ValueError:There cannot be"
+      else .ok (some (completion groups d)) := by
+  simp only [checkGroups]
+  rw [rangeGuard_eq]
+  simp only [pyIf_ok, pyIf_pure, pyCmp_pure, Cmp.eval, flat, completion]
+  rfl
+
+/-- legal groups are accepted and completed by singletons -/
+theorem checkGroups_legal (groups : Groups) (d : Nat) (h : Legal groups d) :
+    checkGroups (some groups) d = .ok (some (completion groups d)) := by
+  obtain ⟨hr, hn⟩ := h
+  rw [checkGroups_unfold]
+  have h1 : decide (¬ InRange d (flat groups)) = false := by simp [hr]
+  simp only [h1, Bool.false_eq_true, if_false]
+  by_cases hl : pyLen (flat groups) = (d : Int)
+  · have hl' : (flat groups).length = d := by simp [pyLen] at hl; omega
+    have hc := covers_of_legal_length _ d hr hn hl'
+    have hs : pySetEq (flat groups) (pyRange d) = true := (pySetEq_range_iff _ d).mpr ⟨hr, hc⟩
+    have hf : ((pyRange d).filter fun i => !(pyIn i (flat groups))) = [] := by
+      rw [List.filter_eq_nil_iff]
+      intro a ha
+      simp [pyIn, hc a ha]
+    simp [hl, hs, completion, hf]
+  · have hd : pySetLen (flat groups) = pyLen (flat groups) := by
+      simp only [pySetLen, pyLen]
+      exact_mod_cast (length_pyDistinct_eq_iff _).mpr hn
+    simp [hl, hd]
+
+/-- anything else is rejected -/
+theorem checkGroups_illegal (groups : Groups) (d : Nat) (h : ¬ Legal groups d) :
+    ∃ e, checkGroups (some groups) d = .error e := by
+  rw [checkGroups_unfold]
+  by_cases hr : InRange d (flat groups)
+  · have hn : ¬ (flat groups).Nodup := fun hn => h ⟨hr, hn⟩
+    have h1 : decide (¬ InRange d (flat groups)) = false := by simp [hr]
+    simp only [h1, Bool.false_eq_true, if_false]
+    by_cases hl : pyLen (flat groups) = (d : Int)
+    · have hl' : (flat groups).length = d := by simp [pyLen] at hl; omega
+      have hs : pySetEq (flat groups) (pyRange d) = false := by
+        cases hq : pySetEq (flat groups) (pyRange d) with
+        | false => rfl
+        | true => exact absurd (nodup_of_covers_length _ d ((pySetEq_range_iff _ d).mp hq).2 hl') hn
+      exact ⟨"ValueError:Groups must form", by simp [hl, hs]⟩
+    · have hd : pySetLen (flat groups) ≠ pyLen (flat groups) := by
+        intro he
+        simp only [pySetLen, pyLen] at he
+        exact hn ((length_pyDistinct_eq_iff _).mp (by exact_mod_cast he))
+      exact ⟨"ValueError:There cannot be", by simp [hl, hd]⟩
+  · exact ⟨"ValueError:Indices passed to", by simp [hr]⟩
+
+theorem flatten_map_singleton (xs : List Int) : (xs.map fun i => [i]).flatten = xs := by
+  induction xs with
+  | nil => rfl
+  | cons a xs ih => simp [ih]
+
+/-- the completed list is a partition of the features: every feature index occurs exactly once -/
+theorem completion_partition (groups : Groups) (d : Nat) (h : Legal groups d) :
+    (completion groups d).flatten.Perm (pyRange d) := by
+  obtain ⟨hr, hn⟩ := h
+  rw [completion, List.flatten_append, flatten_map_singleton, ← flat_eq_flatten]
+  have hperm := List.filter_append_perm (fun i => pyIn i (flat groups)) (pyRange d)
+  refine List.Perm.trans (List.Perm.append_right _ ?_) hperm
+  -- the mentioned indices, in the user's order, are a permutation of the mentioned features in increasing order
+  rw [List.perm_iff_count]
+  intro a
+  have hn2 : ((pyRange d).filter fun i => pyIn i (flat groups)).Nodup :=
+    List.Nodup.sublist List.filter_sublist (nodup_pyRange d)
+  rw [hn.count, hn2.count]
+  have : a ∈ (pyRange d).filter (fun i => pyIn i (flat groups)) ↔ a ∈ flat groups := by
+    simp only [List.mem_filter, pyIn, List.contains_iff_mem, mem_pyRange]
+    exact ⟨fun h => h.2, fun h => ⟨hr a h, h⟩⟩
+  simp [this]
 
 end GemVerif.Lemmas.Constraints
